@@ -115,7 +115,10 @@ def call_builtin(I, name, args, kwargs, fr, node):
                 return v
             ctx.path_tags.append(('iter-typeerror', True))
             I.raise_exc('TypeError')
-        raise Unsupported('two-argument iter')
+        # iter(callable, sentinel): calls `callable()` until it returns `sentinel` (Python's definition, assumed);
+        # kept as an object that records both
+        ctx.trust('assumed: iter(f, sentinel) yields f(), f(), ... and stops at the first result equal to sentinel')
+        return ctx.alloc(HObj('callable_iterator', 'calliter', {'fn': args[0], 'sentinel': args[1]}, closed=True))
     if name == 'ord':
         v = args[0]
         if isinstance(v, VStr):
